@@ -174,6 +174,13 @@ Section Encoder.
       | _ => Ok [Elem (s2l "lib") [] [pv_node (PDict (sort_keys_rec lib))]]
       end).
 
+  (** the outline element is written when there is a contour or a component *)
+  Definition enc_outline (cs : list contour) (ks : list component) : list node :=
+    match cs, ks with
+    | [], [] => []
+    | _, _ => [Elem (s2l "outline") [] (map enc_contour cs ++ map enc_component ks)]
+    end.
+
   (** [encode_xml_impl] *)
   Definition encode_glif (g : glyph) : res node :=
     bind (enc_lib g) (fun libn =>
@@ -185,10 +192,7 @@ Section Encoder.
                        cond_attr (fl_nonzero (gwidth g)) k_width (ff (gwidth g)))]
               else []) ++
              (match gimage g with Some i => [enc_image i] | None => [] end) ++
-             (match gcontours g, gcomps g with
-              | [], [] => []
-              | cs, ks => [Elem (s2l "outline") [] (map enc_contour cs ++ map enc_component ks)]
-              end) ++
+             enc_outline (gcontours g) (gcomps g) ++
              map enc_anchor (ganchors g) ++ map enc_guideline (gguides g) ++
              libn ++
              (match gnote g with Some n => [Elem (s2l "note") [] (text_kids n)] | None => [] end)))).
